@@ -3031,9 +3031,10 @@ SDgetdimstrs(int32 id, /* IN:  dataset ID */
             if ((*dp)->assoc->count == 1) {
                 if (namelen == (*dp)->name->len && strncmp(name, (*dp)->name->values, strlen(name)) == 0) {
                     /* because a dim was given, make sure that this is a coord var */
-                    /* if it is an SDS, the function will fail */
+                    /* an SDS that merely has the dimension's name is passed over,
+                       as it is when the strings are set */
                     if ((*dp)->var_type == IS_SDSVAR) {
-                        HGOTO_ERROR(DFE_ARGS, FAIL);
+                        continue;
                     }
                     /* only proceed if this variable is a coordinate var or when
                     its status is unknown due to its being created prior to
